@@ -237,7 +237,9 @@ def values(out_path):
     # of a (left-aligned) text column shows the stored text, leading blanks included.  Trailing blanks are lost in the padding
     # of the column, so pairs that differ only there are not compared.
     distinct = {"str": ["x", "  x", " x", "x y", "x  y", "    ", "", "X", "x.", "None", "1"], "int": [0, 1, -1, 10, 10 ** 30, -(10 ** 30)],
-                "bool": [True, False], "date": [date(2020, 2, 29), date(2020, 2, 28), date(1, 1, 1)], "float": [1.5, -1.5, 2.5, 0.0, float("inf")]}
+                "bool": [True, False], "date": [date(2020, 2, 29), date(2020, 2, 28), date(1, 1, 1)], "float": [1.5, -1.5, 2.5, 0.0, float("inf"), 2.0 ** 70, 2.0 ** 70 + 2.0 ** 30, 1e16 + 2, 123456789012345678.0],
+                "int?": [1, 2, None], "datetime": [datetime(2020, 1, 1, 12, 30), datetime(2020, 1, 1, 12, 31), datetime(2020, 1, 1)],
+                "complex": [1 + 2j, 1 - 2j, 2j]}
     for tag, vals in distinct.items():
         for a, b in itertools.combinations(vals, 2):
             if tag == "str" and a.rstrip() == b.rstrip():
